@@ -1,6 +1,6 @@
 (* C02 — property theorems only. They are stated on the kriging model of C01 (coq/C01/Model.v). *)
 From Coq Require Import List Arith ZArith QArith Bool Permutation.
-From Gst Require Import lib.QAux lib.LinAlgQ lib.PermSum C01.Model C01.Proofs C02.Proofs C02.Kriging.
+From Gst Require Import lib.QAux lib.LinAlgQ lib.PermSum C01.Model C01.Proofs C02.Proofs C02.Kriging C02.Basis.
 Import ListNotations.
 Local Open Scope Q_scope.
 
@@ -66,6 +66,57 @@ Theorem C02_variance_nonneg : forall k o v,
   0 <= var o v.
 Proof. exact krige_var_nonneg. Qed.
 Print Assumptions C02_variance_nonneg.
+
+(* Change of drift basis / translation. Two systems with the same covariance block, whose drift blocks are related by an
+   invertible recombination M (X' = X.M at the data, x0' = Mt.x0 at the target; zero drift/drift blocks), have the same
+   dual-form estimate r.y and the same r.w term of the variance, for ANY solutions. With a stationary covariance a
+   translation of all coordinates leaves the covariance block and right-hand side unchanged and recombines the monomial
+   drift basis by the matrix M(t) below, whose inverse is M(-t): hence translation invariance of estimate and variance
+   for the constant + linear drift (C02_translation_matrix, C02_translation_basis). *)
+Theorem C02_basis_change_estimate : forall (nd p : nat) (A A' : fmat) (r r' : fvec) (M N : fmat),
+  (forall k l, (k < p)%nat -> (l < p)%nat -> fmul p M N k l == delta k l) ->
+  fsym (nd + p) A -> fsym (nd + p) A' ->
+  (forall a b, (a < nd)%nat -> (b < nd)%nat -> A' a b == A a b) ->
+  (forall a k, (a < nd)%nat -> (k < p)%nat -> A' a (nd + k)%nat == sumn p (fun l => A a (nd + l)%nat * M l k)) ->
+  (forall k l, (k < p)%nat -> (l < p)%nat -> A (nd + k)%nat (nd + l)%nat == 0) ->
+  (forall k l, (k < p)%nat -> (l < p)%nat -> A' (nd + k)%nat (nd + l)%nat == 0) ->
+  (forall a, (a < nd)%nat -> r' a == r a) ->
+  (forall k, (k < p)%nat -> r' (nd + k)%nat == sumn p (fun l => M l k * r (nd + l)%nat)) ->
+  forall w, (forall a, (a < nd + p)%nat -> fmv (nd + p) A w a == r a) ->
+  forall z z' y y',
+  (forall a, (a < nd)%nat -> z' a == z a) ->
+  (forall k, (k < p)%nat -> z (nd + k)%nat == 0) -> (forall k, (k < p)%nat -> z' (nd + k)%nat == 0) ->
+  (forall a, (a < nd + p)%nat -> fmv (nd + p) A y a == z a) ->
+  (forall a, (a < nd + p)%nat -> fmv (nd + p) A' y' a == z' a) ->
+  fdot (nd + p) r' y' == fdot (nd + p) r y.
+Proof. exact basis_estimate. Qed.
+Print Assumptions C02_basis_change_estimate.
+
+Theorem C02_basis_change_variance : forall (nd p : nat) (A A' : fmat) (r r' : fvec) (M N : fmat),
+  (forall k l, (k < p)%nat -> (l < p)%nat -> fmul p M N k l == delta k l) ->
+  fsym (nd + p) A -> fsym (nd + p) A' ->
+  (forall a b, (a < nd)%nat -> (b < nd)%nat -> A' a b == A a b) ->
+  (forall a k, (a < nd)%nat -> (k < p)%nat -> A' a (nd + k)%nat == sumn p (fun l => A a (nd + l)%nat * M l k)) ->
+  (forall k l, (k < p)%nat -> (l < p)%nat -> A (nd + k)%nat (nd + l)%nat == 0) ->
+  (forall k l, (k < p)%nat -> (l < p)%nat -> A' (nd + k)%nat (nd + l)%nat == 0) ->
+  (forall a, (a < nd)%nat -> r' a == r a) ->
+  (forall k, (k < p)%nat -> r' (nd + k)%nat == sumn p (fun l => M l k * r (nd + l)%nat)) ->
+  forall w, (forall a, (a < nd + p)%nat -> fmv (nd + p) A w a == r a) ->
+  forall u, (forall a, (a < nd + p)%nat -> fmv (nd + p) A' u a == r' a) ->
+  fdot (nd + p) r' u == fdot (nd + p) r w.
+Proof. exact basis_variance. Qed.
+Print Assumptions C02_basis_change_variance.
+
+Theorem C02_translation_matrix : forall d t k l, (k < S d)%nat -> (l < S d)%nat ->
+  fmul (S d) (Mtrans t) (Mtrans (fun i => - t i)) k l == delta k l.
+Proof. exact Mtrans_inverse. Qed.
+Print Assumptions C02_translation_matrix.
+
+Theorem C02_translation_basis : forall d (x t : nat -> Q) k, (k < S d)%nat ->
+  (if Nat.eqb k 0 then 1 else x (k - 1)%nat + t (k - 1)%nat)
+  == sumn (S d) (fun l => (if Nat.eqb l 0 then 1 else x (l - 1)%nat) * Mtrans t l k).
+Proof. exact basis_translate. Qed.
+Print Assumptions C02_translation_basis.
 
 (* Non-vacuity of C02_exact: target on datum 0 of the 1-D ordinary kriging below, weights e_0, zero variance *)
 Definition ex2 : kcase :=
